@@ -230,7 +230,18 @@ func vary(t *rapid.T, groups []opGroup, target val.V) ([]opGroup, string) {
 	}
 	gi := gen.Int(t, "group", 0, len(groups)-1)
 	g := &groups[gi]
-	switch gen.Int(t, "variation", 0, 9) {
+	switch gen.Int(t, "variation", 0, 10) {
+	case 10: // a context-free hunk re-addressed to the parent of the hunk before it
+		if gi > 0 && len(g.ctx) == 0 {
+			prev := groups[gi-1].all()
+			if len(prev) > 0 {
+				parent, _ := lastToken(prev[len(prev)-1]["path"].(string))
+				for _, op := range g.all() {
+					op["path"] = parent
+				}
+				return groups, "parent-path"
+			}
+		}
 	case 9: // every add of an insert-only hunk becomes an append
 		// Without context tests this is plainly inside the subset. With a
 		// before-context test only (the hunk sits at the end of its array in
